@@ -261,6 +261,15 @@ def strict_diff(a, b, path="code"):
     return None
 
 
+def srepr(x):
+    """repr for sorting that never converts a huge int to decimal (the conversion is limited, see enc.gz)"""
+    if isinstance(x, bool) or not isinstance(x, (int, list, tuple)):
+        return repr(x)
+    if isinstance(x, int):
+        return "%x" % x
+    return "[" + ",".join(srepr(y) for y in x) + "]"
+
+
 def t_iconst_nan(v):
     """token stream with every NaN identified (payloads are not observable through the API)"""
     t = type(v)
@@ -271,5 +280,5 @@ def t_iconst_nan(v):
     if t is tuple:
         return [8, len(v)] + [t_iconst_nan(x) for x in v]
     if t is frozenset:
-        return [9, len(v)] + sorted((t_iconst_nan(x) for x in v), key=repr)
+        return [9, len(v)] + sorted((t_iconst_nan(x) for x in v), key=srepr)
     return t_iconst(v)
